@@ -556,6 +556,20 @@ func c08CompareAddr(c *Ctx) {
 	for i, r := range Returns(fn) {
 		k, ok := RetVals(r)[0].(*ssa.Const)
 		if !ok {
+			// the tail of an arm delegated to a helper: return sameIPAndPort(a1.IP, a1.Port, a2.IP, a2.Port)
+			if hc, isCall := RetVals(r)[0].(*ssa.Call); isCall {
+				if kind, why := c08CompareTail(fn, r, hc); why == "" {
+					ntrue++
+					key := fmt.Sprintf("compareAddr return-true[%d]", ntrue)
+					c.Ok("compare-addr", key+" same-kind", p.InstrPos(r), "both addresses asserted to "+kind)
+					c.Ok("compare-addr", key+" equal-ports", p.InstrPos(r), "ports compared equal in "+FuncShort(hc.Call.StaticCallee()))
+					c.Ok("compare-addr", key+" ip-compatible", p.InstrPos(r), "true only via `an IP is unspecified` or `IPs equal` in "+FuncShort(hc.Call.StaticCallee()))
+					continue
+				} else {
+					c.Violate("compare-addr", fmt.Sprintf("compareAddr return[%d]", i), p.InstrPos(r), "the accepting arm is delegated to a helper that does not decide `same kind, equal ports, IPs equal or one unspecified`: "+why)
+					continue
+				}
+			}
 			c.Violate("compare-addr", fmt.Sprintf("compareAddr return[%d]", i), p.InstrPos(r), "non-constant result: "+Render(r.Results[0]))
 			continue
 		}
@@ -673,4 +687,146 @@ func c08TimeoutConn(c *Ctx) {
 		}
 		c.Check(okDl, "timeout-conn", key+" deadline", p.Pos(fn.Pos()), "deadline now+timeout set before every delegate call", "the idle deadline is not (re)armed with now+timeout before delegating")
 	}
+}
+
+// c08CompareTail: compareAddr returns hc = helper(ipA, portA, ipB, portB) on an arm where both addresses were asserted to
+// the same concrete kind; the helper yields true only for equal ports and IPs that are equal or of which one is unset.
+// Returns the kind and "" when that holds, otherwise the reason.
+func c08CompareTail(fn *ssa.Function, r *ssa.Return, hc *ssa.Call) (string, string) {
+	hf := hc.Call.StaticCallee()
+	if hf == nil || !InRepo(hf) || hf.Blocks == nil || hf.Signature.Results().Len() != 1 {
+		return "", "not a call of an in-repo function"
+	}
+	rs := RenderConds(DomConds(r))
+	has := func(s string) bool {
+		for _, x := range rs {
+			if x == s {
+				return true
+			}
+		}
+		return false
+	}
+	kind := ""
+	switch {
+	case has("p0.(*net.TCPAddr)#1") && has("p1.(*net.TCPAddr)#1"):
+		kind = "TCPAddr"
+	case has("p0.(*net.UDPAddr)#1") && has("p1.(*net.UDPAddr)#1"):
+		kind = "UDPAddr"
+	}
+	if kind == "" {
+		return "", "the helper is called without both addresses having been asserted to the same kind: " + fmt.Sprint(rs)
+	}
+	// which side (0/1) and which field each argument is
+	type role struct {
+		side  int
+		field string
+	}
+	roles := map[int]role{}
+	for i, a := range hc.Call.Args {
+		for _, f := range []string{"IP", "Port"} {
+			x, ok := isFieldLoadNamed(a, f)
+			if !ok {
+				continue
+			}
+			ex, ok := x.(*ssa.Extract)
+			if !ok || ex.Index != 0 {
+				continue
+			}
+			ta, ok := ex.Tuple.(*ssa.TypeAssert)
+			if !ok {
+				continue
+			}
+			switch ta.X {
+			case ssa.Value(fn.Params[0]):
+				roles[i] = role{0, f}
+			case ssa.Value(fn.Params[1]):
+				roles[i] = role{1, f}
+			}
+		}
+	}
+	parOf := func(side int, field string) *ssa.Parameter {
+		for i, ro := range roles {
+			if ro.side == side && ro.field == field && i < len(hf.Params) {
+				return hf.Params[i]
+			}
+		}
+		return nil
+	}
+	ip0, ip1, pt0, pt1 := parOf(0, "IP"), parOf(1, "IP"), parOf(0, "Port"), parOf(1, "Port")
+	if ip0 == nil || ip1 == nil || pt0 == nil || pt1 == nil {
+		return "", "the helper is not given the IP and port of both addresses"
+	}
+	pair := func(x, y ssa.Value, a, b *ssa.Parameter) bool {
+		return (x == ssa.Value(a) && y == ssa.Value(b)) || (x == ssa.Value(b) && y == ssa.Value(a))
+	}
+	portsEqual := func(at ssa.Instruction) bool {
+		for _, dc := range DomConds(at) {
+			if bo, ok := dc.V.(*ssa.BinOp); ok && pair(bo.X, bo.Y, pt0, pt1) {
+				if (bo.Op == token.EQL && dc.Pol) || (bo.Op == token.NEQ && !dc.Pol) {
+					return true
+				}
+			}
+		}
+		return false
+	}
+	enabling := func(bb *ssa.BasicBlock, idx int) bool {
+		if len(bb.Instrs) == 0 {
+			return true
+		}
+		iff, ok := bb.Instrs[len(bb.Instrs)-1].(*ssa.If)
+		if !ok {
+			return true
+		}
+		atom, pol0 := condAtom(iff.Cond)
+		trueIdx := 0
+		if !pol0 {
+			trueIdx = 1
+		}
+		isIP := func(v ssa.Value) bool { return v == ssa.Value(ip0) || v == ssa.Value(ip1) }
+		switch x := atom.(type) {
+		case *ssa.BinOp:
+			if (x.Op == token.EQL || x.Op == token.NEQ) && ((isIP(x.X) && IsNilConst(x.Y)) || (isIP(x.Y) && IsNilConst(x.X))) {
+				nilIdx := trueIdx
+				if x.Op == token.NEQ {
+					nilIdx = 1 - trueIdx
+				}
+				return idx != nilIdx
+			}
+		case *ssa.Call:
+			if f := x.Call.StaticCallee(); f != nil && f.Name() == "Equal" && len(x.Call.Args) == 2 && pair(x.Call.Args[0], x.Call.Args[1], ip0, ip1) {
+				return idx != trueIdx
+			}
+		}
+		return true
+	}
+	reach := InstrReach(hf, enabling, nil)
+	accepting := 0
+	for _, hr := range Returns(hf) {
+		v := RetVals(hr)[0]
+		if k, isK := v.(*ssa.Const); isK {
+			if k.Value.String() != "true" {
+				continue
+			}
+			accepting++
+			if !portsEqual(hr) {
+				return "", "the helper returns true at " + hr.Parent().Prog.Fset.Position(hr.Pos()).String() + " without the ports having been compared equal"
+			}
+			if reach(hr) {
+				return "", "the helper returns true although both IPs are set and differ"
+			}
+			continue
+		}
+		// return ip1.Equal(ip2)
+		if ec, isC := v.(*ssa.Call); isC {
+			if f := ec.Call.StaticCallee(); f != nil && f.Name() == "Equal" && len(ec.Call.Args) == 2 && pair(ec.Call.Args[0], ec.Call.Args[1], ip0, ip1) && portsEqual(hr) {
+				accepting++
+				continue
+			}
+		}
+		return "", "the helper's result `" + RenderN(v, 3) + "` is neither a constant nor IP equality under equal ports"
+	}
+	if accepting == 0 {
+		return "", "the helper never accepts"
+	}
+	return kind, ""
 }
